@@ -109,6 +109,32 @@ def normalize_absint(ctx, prog, rule, invariant_ok, result_class=True):
     ctx.floor(rule, "clamp calls in normalize", n, 1)
     if not result_class:
         return      # C08 only needs the clamp preconditions (a NaN result is wrong, but it is not a panic)
+    # the stored value is clamped into [min, max] *before* it is scaled: with a degenerate range (inv_range = inf) only
+    # (clamped - min) = 0 gives 0 * inf = NaN -> 0; an unclamped value above the limit would give inf -> 1
+    R = Resolver(f)
+    okc, desc = False, "no product with inv_range found"
+    for bi in f.cfg():
+        for st in f.blocks[bi]["stmts"]:
+            rv = st["rv"]
+            if rv["k"] != "binop" or rv["op"] not in ("Mul",):
+                continue
+            a, b = strip(R.operand(rv["a"])), strip(R.operand(rv["b"]))
+            for x, y in ((a, b), (b, a)):
+                if self_field(y) == "inv_range":
+                    desc = tree_str(strip_deep(x))
+                    if x[0] == "binop" and x[1] == "Sub" and self_field(strip(x[3])) == "min":
+                        v = strip(x[2])
+                        is_clamp = v[0] == "call" and v[1].endswith("::clamp") and strip(v[2][0]) == ("param", 2) and self_field(strip(v[2][1])) == "min" and self_field(strip(v[2][2])) == "max"
+                        mm = False
+                        if v[0] == "call" and v[1].rsplit("::", 1)[-1] in ("min", "max") and len(v[2]) == 2:
+                            inner = [strip(z) for z in v[2]]
+                            outer_fld = [self_field(z) for z in inner if self_field(z)]
+                            nested = [z for z in inner if z[0] == "call" and z[1].rsplit("::", 1)[-1] in ("min", "max")]
+                            if outer_fld and nested:
+                                inner2 = [strip(z) for z in nested[0][2]]
+                                mm = ("param", 2) in inner2 and {outer_fld[0]} | {self_field(z) for z in inner2 if self_field(z)} == {"min", "max"}
+                        okc = is_clamp or mm
+    ctx.ob(rule, "input-clamped/%s" % short(f.path), okc, "the value scaled by inv_range is %s (must be clamp(value, min, max) - min, so that a degenerate range yields 0 for every value)" % desc)
     # result classes
     res = None
     for bi, si, cls, payload in f.ret_assignments():
